@@ -49,6 +49,7 @@ inductive Err where
   | jsonDecode          -- json.JSONDecodeError
   | valueError          -- ValueError (unknown server name; empty command)
   | validation          -- StdioParameters rejects the member types (outside the property)
+  | launchFailed        -- the spawn itself failed (no such executable in the child's environment)
   | other               -- AttributeError / KeyError / TypeError on a mis-shaped document (outside the property)
   deriving DecidableEq, Repr
 
@@ -184,5 +185,47 @@ def entry (e : EntryPoint) (dflt : Env) (f : File) (names : List String) : Resul
     match one dflt f n with
     | .ok l => { launches := [l], raised := none }
     | .error _ => { launches := [], raised := none }
+
+/-! ## Which file is executed
+
+`anyio.open_process([command, *args], env=env)` ends in `execvpe`-like semantics: a command that
+contains a `/` is executed as it stands; a bare name is looked up on the `PATH` **of the
+environment given to the child** (`os.get_exec_path(env)`: `env["PATH"]`, or the system default
+when the child's environment has no `PATH`) — never on the host process's own `PATH`, except
+through the library default environment when no `env` is configured.  `files` is the set of
+executable files that exist (an OS fact supplied by the harness). -/
+
+def defPath : String := "/bin:/usr/bin"
+
+def pathOf (env : Env) : String := (env.lookup "PATH").getD defPath
+
+/-- split on `:` (own structural definition, so that concrete instances reduce in the kernel) -/
+def splitColon : List Char → List Char → List String
+  | [], cur => [String.ofList cur.reverse]
+  | c :: cs, cur => if c = ':' then String.ofList cur.reverse :: splitColon cs [] else splitColon cs (c :: cur)
+
+def pathDirs (env : Env) : List String := splitColon (pathOf env).toList []
+
+/-- the command has a directory part -/
+def isPath (cmd : String) : Bool := cmd.toList.contains '/'
+
+def resolve (files : List String) (env : Env) (cmd : String) : Option String :=
+  if isPath cmd then some cmd
+  else ((pathDirs env).map (fun d => d ++ "/" ++ cmd)).find? (fun f => files.contains f)
+
+/-- the launch as the kernel performs it: `argv[0]` replaced by the file that is executed;
+`none` when no such file exists in the child's environment (the spawn fails) -/
+def resolveLaunch (files : List String) (l : Launch) : Option Launch :=
+  match l.argv with
+  | [] => none
+  | cmd :: args => (resolve files l.env cmd).map (fun exe => { l with argv := exe :: args })
+
+/-- the entry points, down to the executed file.  A failed spawn launches nothing; the loader's
+caller sees it as an exception, the other two report and carry on. -/
+def entryOn (files : List String) (e : EntryPoint) (dflt : Env) (f : File) (names : List String) : Result :=
+  let r := entry e dflt f names
+  let ls := r.launches.filterMap (resolveLaunch files)
+  { launches := ls,
+    raised := if e = .loader ∧ ls.length < r.launches.length then some .launchFailed else r.raised }
 
 end Verif.Model.Config
